@@ -78,9 +78,14 @@ def strings_for(pid, t, rng, sc):
         add("sections", 3, 3, cap=600)
         add("sections", 4, 0, cap=500, sim=400, depth=7, sd=seed() + 1, minlen=4)
         add("classical", 3, 0, cap=300, sim=200, depth=6, sd=seed() + 2, minlen=4)
+        add("xhbar", 3, 0, cap=350, sim=500, depth=9, sd=seed() + 4, minlen=5)
+        add("classical", 12, 0, cap=60, sim=120, depth=5, sd=seed() + 5, minlen=2)   # wide registers (two-digit qubit names)
         add("cxnet", 3, 4, cap=450)
         add("cxnet", 3, 0, cap=150, sim=150, depth=7, sd=seed() + 3, minlen=5)
     else:
+        add("xhbar", 3, 6, cap=6000)
+        add("xhbar", 3, 0, sim=3000, depth=10, sd=seed() + 4, minlen=7)
+        add("classical", 12, 0, cap=400, sim=600, depth=6, sd=seed() + 5, minlen=2)
         add("cxnet", 3, 5, cap=8000)
         add("cxnet", 4, 0, sim=2000, depth=9, sd=seed() + 3, minlen=4)
         add("classical", 3, 3)                                 # all strings of <= 3 gates, a seeded sample of the 4-gate ones
